@@ -62,6 +62,24 @@ reg('C11', 'E1+E2',
     'the growth law itself (positive, monotone, within one step, ends flagged at the first grid time of division).',
     E1_NOTE + ' Division reported exactly at the last grid time is not claimed either way.', '4 C11')
 
+reg('C09', 'E1+E2',
+    'cost-bounded exploration of the scripted stream on rule-carrying models in every mode; rule invariants on the real rows',
+    'Rule sets chained in dependency order (repeated / dt / start / scheduled-at-grid-time; assignment to parameters and species, additive, '
+    'ODE) on models without reactions, with reactions and with rates that read rule-assigned values are run in deterministic, SSA, safe, '
+    'volume, delay and lineage single-cell mode. For the four stochastic simulators every trace of the reference within the cost bound is '
+    'replayed (conformance: rates are computed after the rules); on every real output the mapping-independent oracles are evaluated: fixed '
+    'point of the repeated rules, dt counter +1 and ODE target +rate*dt per step from the second row on, scheduled rule leaves earlier rows '
+    'identical to the same script without the rule. Lineage mode is driven by every raw script over a 4-letter alphabet.',
+    E1_NOTE + ' Lineage single cell has no reference here (C19 has one); deterministic mode checks the fixed point only.', '4 C09')
+reg('C20', 'E3',
+    'explicit-state breadth-first search over operation histories on the real ArrayDelayQueue with a lock-step reference queue',
+    'All histories up to the length bound over add (requested time before / on / 0.3 dt around every slot / beyond the horizon), '
+    'read-and-advance, copy, clear_copy and binomial_partition with every coin sequence, for all 54 queue shapes and start times, are '
+    'executed on the real queue; after every transition the queue is drained and compared slot by slot (content and slot times) with a '
+    'dict-based reference, so exactly-once delivery at the nearest slot, ordering, clamping, copy independence and partition conservation '
+    'are decided for every reachable state within the bounds. States are merged only on (pending counts per relative slot, ring position).',
+    'Trusted: the reference queue (vf/props/c20.py Ref), exact binary grid steps. Bounded by history length and pending-count cap.', '4 C20')
+
 def hook_commits():
     try:
         out = subprocess.run(['git', '-C', '/repo', 'log', '--format=%h %s'], stdout=subprocess.PIPE).stdout.decode()
